@@ -89,7 +89,15 @@ def replay_sequence(inp):
     return False, 'every load of the sequence agrees with the table'
 
 
-REPLAY = {'lmpdat_seq': replay_sequence, 'find_element': replay_find_element, 'lmpdat_masses': replay_lmpdat, 'roundtrip': replay_roundtrip}
+def replay_table(inp):
+    from mofun.atomic_masses import ATOMIC_MASSES
+    from specs.periodic_table import atomic_number
+    e = inp['symbol']
+    bad = e in ATOMIC_MASSES and (atomic_number(e) is None or any(o != e and atomic_number(o) == atomic_number(e) for o in ATOMIC_MASSES))
+    return bad, ("the mass table holds %r = %r, which is not a periodic-table element of its own" % (e, ATOMIC_MASSES.get(e))) if bad else "entry is an element (or absent)"
+
+
+REPLAY = {'mass-table': replay_table, 'lmpdat_seq': replay_sequence, 'find_element': replay_find_element, 'lmpdat_masses': replay_lmpdat, 'roundtrip': replay_roundtrip}
 
 
 def run(rec, tier, seed):
@@ -100,6 +108,17 @@ def run(rec, tier, seed):
                 "between/above; LAMMPS files with masses only (single types and pairs); write/read of every element. "
                 "distinct = distinct (mass, tol) inputs; non-trivial = all")
     rec.exhaustive = True
+    # the table the guesses are taken from holds periodic-table elements only, each once ("no element is invented")
+    from specs.periodic_table import atomic_number
+    zs = {}
+    for e in T:
+        z = atomic_number(e)
+        rec.case(('table-entry', e), group='mass-table')
+        if z is None or z in zs:
+            rec.fail('mass-table', 'mass-table', "the mass table entry %r (%r) is not an element of the periodic table%s" % (
+                e, T[e], '' if z is None else ' of its own: same element as %r' % zs[z]), {'symbol': e}, contract='C14/mass-table/elements-only')
+        else:
+            zs[z] = e
     tols = [0.1, 0.01, 0.5] if tier == 'quick' else [0.1, 0.01, 0.5, 1.0, 0.001, 2.0]
     order = sorted(T.items(), key=lambda kv: kv[1])
     masses = set()
